@@ -271,8 +271,7 @@ def write_trace(path, traces):
 # ---------------------------------------------------------------------------------------
 # conformance: traces of the real code must be behaviours of Helm.tla
 
-def validate_traces(d, traces, max_rounds=8, timeout=900):
-    """returns (accepted_ids, divergences=[(scenario id, line within scenario, event)]), stats"""
+def _validate_one(d, traces, max_rounds, timeout):
     remaining = list(traces)
     divergences, total_states = [], 0
     for _ in range(max_rounds):
@@ -289,7 +288,6 @@ def validate_traces(d, traces, max_rounds=8, timeout=900):
                 raise Inconclusive("trace validation did not complete:\n" + out[-3000:])
             break
         matched = int(m.group(1))
-        # which scenario holds line matched+1 ?
         pos = 0
         for idx, (sid, evs) in enumerate(remaining):
             if pos + len(evs) > matched:
@@ -302,18 +300,54 @@ def validate_traces(d, traces, max_rounds=8, timeout=900):
         else:
             raise Inconclusive("cannot locate rejected line %d" % matched)
     else:
-        pass
-    accepted = [sid for sid, _ in remaining]
-    return accepted, divergences, total_states
+        # too many divergent traces in this chunk: the rest is left unvalidated and counted as divergent
+        for sid, evs in remaining:
+            divergences.append((sid, -1, None))
+        remaining = []
+    return [sid for sid, _ in remaining], divergences, total_states
+
+
+def validate_traces(d, traces, max_rounds=6, timeout=1500, par=6):
+    """conformance: every trace must be a behaviour of Helm.tla (HelmTrace.tla). A rejected trace is removed and
+    the rest re-validated. returns (accepted ids, divergences=[(scenario id, line within scenario, event)], states)"""
+    from concurrent.futures import ThreadPoolExecutor
+    if not traces:
+        return [], [], 0
+    chunks = _chunks(traces, par if sum(len(t[1]) for t in traces) > 3000 else 1)
+    with ThreadPoolExecutor(len(chunks)) as ex:
+        futs = [ex.submit(_validate_one, _subdir(d, "val%d" % i), c, max_rounds, timeout) for i, c in enumerate(chunks)]
+        res = [f.result() for f in futs]
+    return [a for r in res for a in r[0]], [x for r in res for x in r[1]], sum(r[2] for r in res)
 
 
 # ---------------------------------------------------------------------------------------
 # monitor: property predicates on observed states
 
-def monitor(d, traces, timeout=900):
-    """returns list of (check name, scenario id, line within scenario, event)"""
-    write_trace(os.path.join(d, "trace.ndjson"), traces)
-    rc, out, dt = tlc(d, "HelmMon.tla", "HelmMon.cfg", workers=1, timeout=timeout)
+def _subdir(d, name):
+    sd = os.path.join(d, name)
+    shutil.rmtree(sd, ignore_errors=True)
+    os.makedirs(sd)
+    for f in glob.glob(os.path.join(d, "*")):
+        if os.path.isfile(f) and (f.endswith(".tla") or f.endswith(".cfg") or f.endswith("charts.json")):
+            shutil.copy(f, sd)
+    return sd
+
+
+def _chunks(traces, k):
+    """split the list of traces into k chunks of roughly equal event count (whole scenarios only)"""
+    k = max(1, min(k, len(traces)))
+    out = [[] for _ in range(k)]
+    sizes = [0] * k
+    for t in sorted(traces, key=lambda t: -len(t[1])):
+        i = sizes.index(min(sizes))
+        out[i].append(t)
+        sizes[i] += len(t[1])
+    return [c for c in out if c]
+
+
+def _monitor_one(sd, traces, timeout):
+    write_trace(os.path.join(sd, "trace.ndjson"), traces)
+    rc, out, dt = tlc(sd, "HelmMon.tla", "HelmMon.cfg", workers=1, timeout=timeout)
     total = sum(len(evs) for _, evs in traces)
     gen, dist, depth = tlc_stats(out)
     if depth < total + 1:
@@ -330,6 +364,18 @@ def monitor(d, traces, timeout=900):
                 viols.append((name, sid, line - lo - 1, evs[line - lo - 1]))
                 break
     return viols, dist
+
+
+def monitor(d, traces, timeout=1500, par=6):
+    """property predicates (HelmMon.tla) on the observed states; the trace is split over `par` TLC
+    processes. returns list of (check name, scenario id, line within scenario, event), states"""
+    from concurrent.futures import ThreadPoolExecutor
+    chunks = _chunks(traces, par if sum(len(t[1]) for t in traces) > 3000 else 1)
+    with ThreadPoolExecutor(len(chunks)) as ex:
+        futs = [ex.submit(_monitor_one, _subdir(d, "mon%d" % i), c, timeout) for i, c in enumerate(chunks)]
+        res = [f.result() for f in futs]
+    viols = [v for r in res for v in r[0]]
+    return viols, sum(r[1] for r in res)
 
 
 # ---------------------------------------------------------------------------------------
